@@ -159,6 +159,21 @@ pub fn lookalike_space() -> Vec<StructProg> {
     out
 }
 
+/// Member names that look like padding / reserved / private fields: every member is a field, whatever it is called.
+pub fn named_members_space() -> Vec<StructProg> {
+    let f = Scalar::F32;
+    let u = Scalar::U32;
+    let mut out = vec![];
+    let names = ["_pad0", "_pad", "_padding", "padding", "_reserved", "_unused0", "__x", "x_", "_0", "pad1"];
+    for (i, n) in names.iter().enumerate() {
+        // a pad that is NOT redundant under the WGSL rules (dropping it moves the following members)
+        out.push(make_prog(vec![Member::plain("position", Ty::Vec(3, f)), Member::plain(n, Ty::Scalar(f)), Member::plain("intensity", Ty::Scalar(f)), Member::plain("flags", Ty::Scalar(u))], "storage", format!("named|{n}|after-vec3")));
+        out.push(make_prog(vec![Member::plain("count", Ty::Scalar(u)), Member::plain(n, Ty::Scalar(u)), Member::plain("scale", Ty::Scalar(f)), Member::plain("items", Ty::RtArray(Box::new(Ty::Vec(4, f))))], "storage-read", format!("named|{n}|before-rt")));
+        out.push(make_prog(vec![Member::plain(n, Ty::Vec(2, f)), Member::plain("k", Ty::Scalar(f)), Member::plain(names[(i + 1) % names.len()], Ty::Vec(4, f))], "uniform", format!("named|{n}|first-and-last")));
+    }
+    out
+}
+
 pub fn make_prog(members: Vec<Member>, space: &'static str, key: String) -> StructProg {
     let mut env = base_env();
     env.add(StructDef { name: "Root".into(), members });
